@@ -39,7 +39,7 @@ BASES_CYC = [
 ]
 
 MUTATIONS = ["covlen_0", "covlen_neg", "covlen_big", "covlen_without_length_attr", "covlen_with_coverage", "nonstring_node", "cycle", "no_source", "no_sink", "negative", "negative_last", "missing", "nonconserving", "nonconserving_quarter", "cons_absent_arc", "cons_not_list", "cons_empty", "cons_nontuple",
-             "coverage_0", "coverage_neg", "coverage_big", "coverage_nan", "covlen_nan", "k_0", "k_neg", "k_frac", "weight_type_str", "origin_foo", "unknown_start", "unknown_end", "scale_big", "scale_neg", "empty_graph"]
+             "coverage_0", "coverage_neg", "coverage_big", "coverage_nan", "covlen_nan", "k_0", "k_neg", "k_frac", "weight_type_str", "origin_foo", "unknown_start", "unknown_end", "scale_big", "scale_neg", "scale_nan", "empty_graph"]
 
 
 def bounds(tier):
@@ -240,6 +240,8 @@ def _build(case):
             kw["error_scaling"] = {(first_arc if origin == "edge" else nodes[0]): 1.5}
         elif m == "scale_neg":
             kw["error_scaling"] = {(first_arc if origin == "edge" else nodes[0]): -0.5}
+        elif m == "scale_nan":
+            kw["error_scaling"] = {(first_arc if origin == "edge" else nodes[0]): float("nan")}
     G = nx.DiGraph()
     if "empty_graph" not in muts:
         for v in nodes:
